@@ -1292,7 +1292,9 @@ def _stream_decisions(ctx, cases):
                 gl = glog[0]
                 E, I = gl["E"], gl["I"]
                 I_test = None
-                with warnings.catch_warnings(), np.errstate(all="warn"):
+                # (numpy's default error state, as in the call under test: underflow is NOT a warning - a tiny E must
+                # not turn the LU outcome into "failed")
+                with warnings.catch_warnings(), np.errstate(divide="warn", over="warn", invalid="warn", under="ignore"):
                     warnings.simplefilter("error", RuntimeWarning)
                     try:
                         lup = la.lu_factor(X)
